@@ -59,7 +59,7 @@ type Check interface {
 
 var registry = map[string]Check{}
 
-func Register(c Check) { registry[c.ID()] = c }
+func Register(c Check)       { registry[c.ID()] = c }
 func Lookup(id string) Check { return registry[id] }
 func IDs() []string {
 	var s []string
